@@ -42,6 +42,11 @@ inductive RTree where
   | un (op : Int → Int) (s : RTree)
   | filt (p : Int → Bool) (srcs : List RTree)
   | sel (which : List Sel) (srcs : List RTree)
+  /-- `SubstitutionRoller(lambda o: e.roll() if p(o.value) else o, src, coalesce_mode, max_depth)` -/
+  | subst (p : Int → Bool) (e : RTree) (replace : Bool) (maxDepth : Nat) (src : RTree)
+  /-- `SubstitutionRoller(lambda o: RollOutcome(f(o.value)) if p(o.value) else o, src, max_depth=…)`:
+  the expansion operator answers with a fresh outcome instead of a roll -/
+  | substMap (p : Int → Bool) (f : Int → Int) (maxDepth : Nat) (src : RTree)
 
 /-- a roll: its outcomes and its source rolls (the producing roller is the tree node itself) -/
 inductive RollRec where
@@ -100,10 +105,10 @@ def sumOperand (sr : RollRec) : RO :=
 
 def euthanize (ro : RO) : RO := .mk none [ro] false
 
-/-- stable insertion sort of roll outcomes by value (`list.sort(key=attrgetter("value"))`) -/
+/-- stable insertion sort of roll outcomes by value (an outcome is inserted BEFORE equal-valued ones and the fold runs from the right, so equal values keep their original order) (`list.sort(key=attrgetter("value"))`) -/
 def insertRO (x : RO) : List RO → List RO
   | [] => [x]
-  | y :: ys => if (x.value.getD 0) < (y.value.getD 0) then x :: y :: ys else y :: insertRO x ys
+  | y :: ys => if (x.value.getD 0) ≤ (y.value.getD 0) then x :: y :: ys else y :: insertRO x ys
 def sortRO (l : List RO) : List RO := l.foldr insertRO []
 
 /-- `n` independent repetitions -/
@@ -113,6 +118,29 @@ def replicateW {β} : Nat → W β → W (List β)
     let r ← x
     let rs ← replicateW n x
     pure (r :: rs)
+
+/-- `RollOutcome.adopt((o,), CoalesceMode.APPEND)`: same value and owner, `o` appended to the sources -/
+def RO.adoptAppend (o : RO) : RO → RO
+  | .mk v srcs ow => .mk v (srcs ++ [o]) ow
+
+/-- `SubstitutionRoller.roll`'s `_expanded_roll_outcomes(roll, depth)` with `k = max_depth - depth`
+levels left: returns the yielded outcomes and the rolls appended to `source_rolls`, in order.
+`rollE` is "roll the expansion roller once more" (every use is an independent re-roll). -/
+def expandW (mkRoll : List RO → List RollRec → RollRec) (p : Int → Bool) (rollE : W RollRec)
+    (replace : Bool) : Nat → RollRec → W (List RO × List RollRec)
+  | 0, roll => pure (roll.outcomes.filter (fun ro => ro.value.isSome), [roll])
+  | k + 1, roll =>
+    (roll.outcomes.filter (fun ro => ro.value.isSome)).foldl
+      (fun acc o => do
+        let st ← acc
+        if p (o.value.getD 0) then do
+          let er ← rollE
+          -- `expanded.adopt((roll_outcome,), APPEND)` builds a new Roll around the adopted outcomes
+          let adopted := mkRoll (er.outcomes.map (RO.adoptAppend o)) er.sourceRolls
+          let sub ← expandW mkRoll p rollE replace k adopted
+          pure (st.1 ++ [if replace then euthanize o else o] ++ sub.1, st.2 ++ sub.2)
+        else pure (st.1 ++ [o], st.2))
+      (pure ([], [roll]))
 
 mutual
 /-- all rolls of a list of sources, in order -/
@@ -160,6 +188,19 @@ def rollW (mkRoll : List RO → List RollRec → RollRec) : RTree → W RollRec
       let selected := idxs.filterMap fun j => sorted[j]?
       let excluded := (List.range sorted.length).filter fun j => !idxs.contains j
       pure (mkRoll (selected ++ excluded.filterMap fun j => (sorted[j]?).map euthanize) rs)
+  | .subst p e replace maxDepth src => do
+    let sr ← rollW mkRoll src
+    let res ← expandW mkRoll p (rollW mkRoll e) replace maxDepth sr
+    pure (mkRoll res.1 res.2)
+  | .substMap p f maxDepth src => do
+    let sr ← rollW mkRoll src
+    let live := sr.outcomes.filter (fun ro => ro.value.isSome)
+    pure (mkRoll
+      (if maxDepth = 0 then live
+       else live.map fun o =>
+        -- `expanded.adopt((roll_outcome,), APPEND)`: the fresh outcome records the one it replaces
+        if p (o.value.getD 0) then .mk (some (f (o.value.getD 0))) [o] false else o)
+      [sr])
 end
 
 end Dyce
